@@ -41,9 +41,11 @@ def reference_gates():
 
 def gate_literal(ctx, ci: ClassInfo):
     """Fold the matrix a single-qubit gate class hands to Unitary.__init__."""
+    from ..inline import inl
     ini = ci.methods.get("__init__")
     if ini is None:
         raise AnalysisError(f"{ci.name}.__init__ not found")
+    ini = inl(ini)
     sup = [c for c in walk_no_nested(ini.node) if isinstance(c, ast.Call) and src(c.func) == "super().__init__"]
     if not sup or not sup[0].args:
         raise AnalysisError(f"{ci.name}: super().__init__(unitary, label) not found")
@@ -86,10 +88,12 @@ def single_qubit_gates(ctx, res, names=None) -> dict:
             res.bad("K-gate-literal", name, f"{SQ}:{ci.node.lineno}", f"{name}.__init__",
                     f"the matrix literal of {name} contains {e}: that is |cos| / |sin| of the half angle, so the signs of the entries are lost for angles beyond pi and the matrix is not proportional to {name}(theta) for every angle", construct=f"{name} literal")
             continue
-        except (NotFoldable, ValueError, ZeroDivisionError) as e:
-            raise AnalysisError(f"gate literal of {name} is not foldable: {e}") from e
+        except (NotFoldable, ValueError, ZeroDivisionError, AnalysisError) as e:
+            res.frozen(False, "K-gate-literal", name, f"{SQ}:{ci.node.lineno}", f"{name}.__init__", "", f"gate literal of {name} is not foldable: {e}", construct=f"{name} literal")
+            continue
         if not is_matrix(m):
-            raise AnalysisError(f"gate literal of {name} did not fold to a matrix")
+            res.frozen(False, "K-gate-literal", name, f"{SQ}:{ci.node.lineno}", f"{name}.__init__", "", f"gate literal of {name} did not fold to a matrix", construct=f"{name} literal")
+            continue
         ok, why = proportional_unit_modulus(m, ref[name])
         out[name] = m
         res.add(ok, "K-gate-literal", name, f"{SQ}:{node.lineno}", f"{name}.__init__",
